@@ -21,9 +21,6 @@ theorem isTempAssign_src {n : Node} (h : srcOk n = true) : isTempAssign n = fals
     simp [srcNode] at this
   · rfl
 
-theorem VC.src {n : Node} (h : srcOk n = true) (lo hi : Nat) : VC lo hi n n :=
-  ⟨ErAll.src h lo hi, Or.inl rfl, Deep.src lo hi n h, isTempAssign_src h, fun _ => rfl⟩
-
 /-- the children of a node, visited one after the other -/
 def KL (lo hi : Nat) (ks' ks : List Node) : Prop := Forall2 (VC lo hi) ks' ks
 
@@ -55,23 +52,25 @@ theorem KL.deepL {lo hi : Nat} : ∀ {ks' ks : List Node}, KL lo hi ks' ks → D
       exact ⟨h.1.1, h.1.2.2.1, ih h.2⟩
 
 /-- erasing the visited children in order gives the source children, up to positions -/
-theorem eraseL_KL {lo hi : Nat} : ∀ {ks' ks : List Node}, KL lo hi ks' ks → ∀ σ,
-    ∃ Xs Δ, eraseL σ ks' = (Xs, Δ ++ σ) ∧ Forall2 Sim Xs ks ∧ Win lo hi Δ := by
+theorem eraseL_KL {lo hi : Nat} : ∀ {ks' ks : List Node}, KL lo hi ks' ks → ∀ ks'', BRgL ks' ks'' → ∀ σ,
+    ∃ Xs Δ, eraseL σ ks'' = (Xs, Δ ++ σ) ∧ Forall2 Sim Xs ks ∧ Win lo hi Δ := by
   intro ks'
   induction ks' with
   | nil =>
-    intro ks h σ
+    intro ks h ks'' hb σ
+    rw [BRgL.nil_inv hb]
     cases ks with
     | nil => exact ⟨[], [], rfl, by simp [Forall2], Win.nil _ _⟩
     | cons _ _ => simp [KL, Forall2] at h
   | cons x xs ih =>
-    intro ks h σ
+    intro ks h ks'' hb σ
+    obtain ⟨x'', xs'', rfl, hx, hxs⟩ := BRgL.cons_inv hb
     cases ks with
     | nil => simp [KL, Forall2] at h
     | cons y ys =>
       simp only [KL, Forall2] at h
-      obtain ⟨X, Δ1, e1, s1, w1⟩ := h.1.1 σ
-      obtain ⟨Xs, Δ2, e2, s2, w2⟩ := ih h.2 (Δ1 ++ σ)
+      obtain ⟨X, Δ1, e1, s1, w1⟩ := h.1.1 x'' hx σ
+      obtain ⟨Xs, Δ2, e2, s2, w2⟩ := ih h.2 xs'' hxs (Δ1 ++ σ)
       refine ⟨X :: Xs, Δ2 ++ Δ1, ?_, ?_, w2.append w1⟩
       · simp only [eraseL, e1, e2, List.append_assoc]
       · simp only [Forall2]; exact ⟨s1, s2⟩
